@@ -1,5 +1,143 @@
+(* C20 — property theorems only.  Each is closed by [exact] of a lemma of Proofs.v / ListProofs.v
+   and followed by Print Assumptions.
+
+   Scope of the theorems: the two-object protocol (objects 0 and 1; one link at a time between
+   any two traits of the same kind - same name or alias -, mutual or one-way, created, upgraded,
+   removed from either side, re-created; object 1 garbage-collected at any point; in between ANY
+   history of assignments and list mutations on all eight traits, any values, any lists).
+   List mutators: any set [allowed] whose events replay (C05's law, [replay_ok]); proved for all
+   mutators except slice keys (simple_mutators_replay).  Link graphs with several partners are
+   covered by the correspondence only; cyclic_links_diverge shows why no general theorem holds. *)
 From Coq Require Import ZArith List Bool Arith.
-From TV Require Import Common.Harness C20.ListSem C20.Model C20.Law.
+From TV Require Import Common.Harness C20.ListSem C20.ListProofs C20.Model C20.Law C20.Steps C20.Proofs.
 Import ListNotations.
 Open Scope Z_scope.
-Example placeholder : 1 = 1. Proof. reflexivity. Qed.
+
+(* The whole law (all 8 clauses of Law.v) holds at every step of every accepted history. *)
+Theorem law_holds_on_two_object_protocol :
+  forall (allowed : mut -> Prop), (forall mu, allowed mu -> forall l, replay_ok l mu) ->
+  forall (F : nat) (h : list op) (va vb : list val),
+    typed va -> typed vb -> accepts allowed MFresh h ->
+    law_hist 0 [] [va; vb] (run (S (S F)) (init_state [va; vb]) h) = [].
+Proof.
+  intros allowed Hr F h va vb Ta Tb Ha.
+  exact (protocol_law allowed Hr F h MFresh va vb [] 0 (conj Ta (conj Tb I)) Ha).
+Qed.
+Print Assumptions law_holds_on_two_object_protocol.
+
+(* ... from any reachable mode as well (mutual / one-way / partner dead) *)
+Theorem law_holds_from_every_mode :
+  forall (allowed : mut -> Prop), (forall mu, allowed mu -> forall l, replay_ok l mu) ->
+  forall (F : nat) (h : list op) (md : mode) (va vb : list val) nts i,
+    inv md va vb -> accepts allowed md h ->
+    law_hist i (edges_of md) (snap_of md va vb) (run (S (S F)) (st_of md va vb nts) h) = [].
+Proof. exact protocol_law. Qed.
+Print Assumptions law_holds_from_every_mode.
+
+(* the replay hypothesis holds for every mutator that does not take a slice key *)
+Theorem simple_mutators_replay :
+  forall (l : list Z) (m : mut), simple_mut m = true -> replay_ok l m.
+Proof. exact simple_replay_ok. Qed.
+Print Assumptions simple_mutators_replay.
+
+Theorem mutual_converges :
+  forall F n m va vb nts o,
+  inv (MMutual n m) va vb ->
+  (match o with
+   | Assign x k _ => (x < 2)%nat /\ (k < 4)%nat
+   | Mut x k mu => (x < 2)%nat /\ (k < 4)%nat /\ (forall l, replay_ok l mu)
+   | _ => False end) ->
+  let r := step (S (S F)) (st_of (MMutual n m) va vb nts) o in
+  sval (ob_vals (snd r)) (0%nat, n) = sval (ob_vals (snd r)) (1%nat, m) /\
+  exists va' vb', objs (fst r) = shape (MMutual n m) va' vb' /\ inv (MMutual n m) va' vb' /\
+                  overflow (fst r) = false.
+Proof. exact mutual_converges_step. Qed.
+Print Assumptions mutual_converges.
+
+(* termination: recursion depth 2 (fuel S (S F) for every F, in particular F = 0) is never exceeded *)
+Theorem propagation_depth_le_2 :
+  forall (allowed : mut -> Prop), (forall mu, allowed mu -> forall l, replay_ok l mu) ->
+  forall F h md va vb nts, inv md va vb -> accepts allowed md h ->
+    Forall (fun p => ob_out (snd p) <> Raised RecursionError) (run (S (S F)) (st_of md va vb nts) h).
+Proof. exact protocol_no_overflow. Qed.
+Print Assumptions propagation_depth_le_2.
+
+Theorem at_most_one_notification_per_real_change :
+  forall (allowed : mut -> Prop), (forall mu, allowed mu -> forall l, replay_ok l mu) ->
+  forall F h md va vb nts, inv md va vb -> accepts allowed md h ->
+    Forall (fun p => clause7 (snd p) = true /\ ob_logged (snd p) = 0)
+           (run (S (S F)) (st_of md va vb nts) h).
+Proof. exact protocol_one_notification. Qed.
+Print Assumptions at_most_one_notification_per_real_change.
+
+Theorem one_way_is_one_way :
+  forall F n m va vb nts,
+  inv (MOneway n m) va vb ->
+  (forall v, kind_ok n v = true -> nth_error va n <> Some v ->
+     let r := step (S (S F)) (st_of (MOneway n m) va vb nts) (Assign 0%nat n v) in
+     sval (ob_vals (snd r)) (0%nat, n) = Some v /\ sval (ob_vals (snd r)) (1%nat, m) = Some v) /\
+  (forall o,
+     (match o with
+      | Assign x k _ => x = 1%nat /\ (k < 4)%nat
+      | Mut x k mu => x = 1%nat /\ (k < 4)%nat /\ (forall l, replay_ok l mu)
+      | _ => False end) ->
+     let r := step (S (S F)) (st_of (MOneway n m) va vb nts) o in
+     forall j, (j < 4)%nat ->
+       sval (ob_vals (snd r)) (0%nat, j) = nth_error va j /\ scnt (ob_cnt (snd r)) (0%nat, j) = 0).
+Proof.
+  intros F n m va vb nts Hi. split.
+  - intros v. exact (oneway_source_assign F n m va vb nts v Hi).
+  - intros o. exact (oneway_reverse_inert F n m va vb nts o Hi).
+Qed.
+Print Assumptions one_way_is_one_way.
+
+(* removal restores the pristine pool (no table entry, no handler): the objects are as if never linked *)
+Theorem removed_link_inert :
+  forall F n m va vb nts, inv (MMutual n m) va vb ->
+  exists va' vb',
+    objs (fst (step (S (S F)) (st_of (MMutual n m) va vb nts) (Unsync 0%nat n 1%nat m true))) = map fresh [va'; vb'] /\
+    ob_vals (snd (step (S (S F)) (st_of (MMutual n m) va vb nts) (Unsync 0%nat n 1%nat m true))) = [va'; vb'].
+Proof. exact removed_link_pristine. Qed.
+Print Assumptions removed_link_inert.
+
+(* after the partner died every operation on the survivor is lawful: plain result, nothing raised
+   or logged, one notification (clauses 4-8), although the sync handlers are still attached *)
+Theorem dead_partner_inert :
+  forall (allowed : mut -> Prop), (forall mu, allowed mu -> forall l, replay_ok l mu) ->
+  forall F h md va vb nts, inv md va vb -> not_dead md -> accepts allowed (dead_of md) h ->
+    law_hist 0 (edges_of md) (snap_of md va vb) (run (S (S F)) (st_of md va vb nts) (Collect 1%nat :: h)) = [].
+Proof.
+  intros allowed Hr F h md va vb nts Hi Hd Ha.
+  apply (protocol_law allowed Hr); [exact Hi|].
+  eapply A_cons; [apply T_collect; exact Hd|exact Ha].
+Qed.
+Print Assumptions dead_partner_inert.
+
+(* New finding: with three mutually linked lists (a trait reachable along two link paths) one
+   append is delivered twice - the model, which follows the code, violates clauses 1, 3 and 7. *)
+Definition tri_init : list (list val) :=
+  [[VS 0; VS 0; VL [1]; VL []]; [VS 0; VS 0; VL []; VL []]; [VS 0; VS 0; VL []; VL []]].
+Definition tri_ops : list op :=
+  [Sync 0 2 1 2 true; Sync 0 2 2 2 true; Sync 1 2 2 2 true; Mut 0 2 (MAppend 5)]%nat.
+Theorem cyclic_links_diverge :
+  law_hist 0 [] tri_init (run 40 (init_state tri_init) tri_ops) = [301; 303; 307]
+  /\ map (fun p => ob_vals (snd p)) (skipn 3 (run 40 (init_state tri_init) tri_ops))
+     = [[[VS 0; VS 0; VL [1; 5]; VL []]; [VS 0; VS 0; VL [1; 5; 5]; VL []]; [VS 0; VS 0; VL [1; 5; 5]; VL []]]].
+Proof. vm_compute. split; reflexivity. Qed.
+Print Assumptions cyclic_links_diverge.
+
+(* Non-vacuity: an accepted history in which values propagate in both directions, an extended-slice
+   mutation (outside simple_mut) is replayed, an operation raises, the link is removed, re-created
+   one-way and the partner is collected; the law holds at every step. *)
+Example history_nontrivial :
+  let h := [Sync 0 2 1 3 true; Mut 0 2 (MAppend 7); Mut 1 3 (MSetS (None, None, Some 2%Z) [8; 9]%Z);
+            Mut 1 3 (MPop (Some 9%Z)); Assign 1 3 (VL [4]%Z); Unsync 0 2 1 3 true; Mut 0 2 MClear;
+            Sync 0 2 1 3 false; Mut 0 2 (MDelS (None, None, Some (-2)%Z)); Collect 1; Mut 0 2 (MAppend 1)]%nat in
+  let init := [tv 0 0 [1; 2; 3] []; tv 1 1 [] [6]] in
+  let tr := run 2 (init_state init) h in
+  law_hist 0 [] init tr = []
+  /\ map (fun p => ob_cnt (snd p)) (firstn 5 tr)
+     = [[[0;0;0;0];[0;0;0;1]]; [[0;0;1;0];[0;0;0;1]]; [[0;0;1;0];[0;0;0;1]]; [[0;0;0;0];[0;0;0;0]]; [[0;0;1;0];[0;0;0;1]]]
+  /\ map (fun p => ob_out (snd p)) tr
+     = [Done; Done; Done; Raised IndexError; Done; Done; Done; Done; Done; Done; Done].
+Proof. vm_compute. repeat split; reflexivity. Qed.
